@@ -37,6 +37,7 @@ var extractors = []extractor{
 	{"ClientCfg", genClientCfg},
 	{"DescIter", genDescIter},
 	{"UnifyID", genUnifyID},
+	{"WireFacts", genWireFacts},
 }
 
 func main() {
